@@ -56,7 +56,9 @@ plan('C07',
      post=post,
      assumptions=COMMON_ASSUME + [
          'null element = a handle for which operator! is true (decode returns a fresh empty-tagged element, or occasionally a lone text node; both are counted)',
-         'the parent() of the returned root itself is not queried (it refers to the parser\'s destroyed seeded root; the statement does not cover it)',
+         'the element decode returns is the root of the tree: its parent() must be the null element (what Xml::parent() documents for a root), and walking parent() up from '
+         'every fifth element must end there after exactly the element\'s depth. Before fix b6c6e42 the root still pointed at the parser\'s destroyed holder element, so the upward walk '
+         'ended in freed memory; that is judged as a broken parent link of the returned tree, not as a new requirement',
          'whitespace-only text = text consisting of space, tab, CR, LF only (incl. empty text); well-formed name = [A-Za-z_:][A-Za-z0-9_.:-]* with valid UTF-8 non-ASCII characters allowed anywhere',
          'values and text never contain NUL (asl Strings are NUL-terminated); inputs shorter than 19 bytes are stored inline where ASan cannot see an over-read, so they are additionally run padded to 19 bytes',
          'decoding of generated documents is judged for totality, parent links and re-encodability only: no entity expansion, namespace, CDATA, comment or PI semantics is demanded',
